@@ -72,6 +72,8 @@ def _one(item):
             do_call(h, built, call)
     except Exception as e:
         return ("call_raised", short_exc(e))
+    # fingerprint of the state the history leaves behind: which modules are fully elaborated / flattened
+    state = tuple(sorted((m, built.modules[m]._elaborated is not None, built.modules[m]._pre_flattening_io is not None) for m in design["modules"]))
     # every module's package must equal the fresh one
     for top in design["modules"]:
         try:
@@ -96,7 +98,7 @@ def _one(item):
             return ("not_frozen", f"addition to elaborated module {top} accepted")
         except Exception:
             pass
-    return None
+    return ("ok_state", state)
 
 
 def new_parent_check(h, design, built, dname):
@@ -166,7 +168,11 @@ def run(ctx):
         res = ctx.pmap(_one, items, chunk=40)
         for (dn, hh), r in zip(items, res):
             ctx.count(states=1, transitions=len(hh) + 2 * len(design["modules"]) + 1, traces_validated_against_impl=1)
-            ctx.outcome("ok" if r is None else r[0])
+            if r is not None and r[0] == "ok_state":
+                ctx.outcome(("state", dn, r[1]))
+                r = None
+            else:
+                ctx.outcome("ok" if r is None else r[0])
             if r:
                 ctx.violation(dict(dag=dn, kind=r[0], first_call=hh[0][0], what=r[1][:60]), dict(dag=dn, history=[[k, list(ms)] for k, ms in hh]), r[1])
         ctx.fam(dname, histories=len(items), call_alphabet=len(calls))
@@ -182,7 +188,7 @@ def run(ctx):
                                capture_output=True, text=True, env=dict(os.environ, PYTHONHASHSEED="0"), timeout=300)
             sub += 1
             last = r.stdout.strip().splitlines()[-1] if r.stdout.strip() else "ERR"
-            if last != "null":
+            if last != "null" and not last.startswith('["ok_state"'):
                 ctx.violation(dict(dag=dname, kind="subprocess", first_call="-", what=last[:60]), dict(dag=dname, history=[[k, list(ms)] for k, ms in hh]), last + r.stderr[-300:])
     ctx.count(states=sub, transitions=sub, traces_validated_against_impl=sub)
     ctx.fam("fresh_subprocesses", runs=sub)
@@ -192,5 +198,7 @@ def run(ctx):
 def replay(body):
     c = body["case"]
     r = _one((c["dag"], [(k, tuple(ms)) for k, ms in c["history"]]))
+    if r is not None and r[0] == "ok_state":
+        r = None
     print("replay:", r or "holds")
     return 1 if r else 0
